@@ -127,7 +127,8 @@ AllMuts == {"trunc_before", "trunc_before_fix", "trunc_inside", "trunc_inside_fi
             "len_0", "len_m1", "len_p1", "len_max",
             "count_0", "count_p1", "count_max",
             "tag_unknown", "val_0", "val_max", "dup", "dup_fill", "dup_fill_empty", "empty",
-            "list_plus1", "list_minus1", "swap", "nest"}
+            "list_plus1", "list_minus1", "swap", "nest",
+            "seq_m1", "seq_p1", "seq_p2", "seq_p32768", "seq_half"}
 
 Applicable(l, m) ==
   IF l.k \in TextKinds
@@ -151,6 +152,9 @@ Applicable(l, m) ==
          [] m \in {"list_plus1", "list_minus1"} -> l.ew > 1
          \* the element exchanged with its successor; the element nested in its own value several levels deep
          [] m \in {"swap", "nest"} -> l.el
+         \* sequence numbers relative to the endpoint's current value of that sequence space: one behind, the next,
+         \* one gap, 2^15 ahead, and the farthest value serial arithmetic still calls "ahead" (2^(bits-1) - 1)
+         [] m \in {"seq_m1", "seq_p1", "seq_p2", "seq_p32768", "seq_half"} -> l.sq # ""
          [] OTHER -> FALSE
 
 MaxLeaves == 100
